@@ -68,7 +68,7 @@ CHECKS = {
    note="Clock times are non-negative as in every entry the library creates."),
  "C20": dict(cat="exploration", ref="§3 C20", tech="runtime monitor: reference map id -> key bytes over seeded interleavings across keystore instances sharing an instrumented datastore; identity clauses verified directly with libp2p",
    text="1-4 real Keystore instances over one datastore, up to 400 ids (beyond the 128-entry cache), restarts; HasKey/GetKey on every instance after every creation; identity stability (also after requests and identity creations under an ended context, on context-honouring and context-ignoring datastores) and the three signature clauses, also for the identity a reader decodes from a stored entry; thorough adds concurrent use under the race detector.",
-   note="Each id is created once (a second raw CreateKey on the same id replaces the key and is outside 'a key once created')."),
+   note="Each id is created once (a second raw CreateKey on the same id replaces the key and is outside 'a key once created'). One recorded finding: ids that differ only by path cleaning (doubled separators, dot segments) share one datastore key; matched narrowly (the probe checks that both ids clean to the same key)."),
 }
 PENDING = {}
 ALL = ["C%02d" % i for i in range(1, 21)]
